@@ -19,6 +19,7 @@ import M4riProofs.Top
 import M4riProofs.GenTie
 import M4riProofs.GenTieSlice
 import M4riProofs.GenTieRec
+import M4riProofs.GenTiePleFinal
 namespace M4ri.Props.C12
 open M4ri M4ri.BMat
 
@@ -134,5 +135,12 @@ end cfg2
 #check @M4ri.GenTieRec.blocksize_eq
 #check @M4ri.GenTieRec.trsmUpperRightRec_step
 #check @M4ri.GenTieRec.trsmLowerLeftRec_step
+
+
+/-! ### tie to the C text: the RECURSIVE BRANCH of `_mzd_ple` (split, 6 matrix windows, 4 permutation windows, first recursive call, Schur
+    complement through the translated `mzd_apply_p_left` and `_mzd_trsm_lower_left`, product, second recursive call, fix-ups of A10 / P / Q,
+    L compression) is generated by vlib/ctrans.py on every check; with the recursive calls instantiated by the model at `fuel` it returns
+    exactly what `pleRec (fuel + 1)` computes: rank, storage, P, Q (GenTiePle.lean; call contracts derived from `pleRec_spec`) -/
+#check @M4ri.GenTiePle.pleRecStep_pleRec_full
 
 end M4ri.Props.C12
